@@ -92,6 +92,11 @@ class C02(Check):
             k += 1
             yield dict(seed=seed * 7919 + 950 + k, source=src_, mode="centres", weights=True, redshifts=False, dtype="f8",
                        degrees=bool(k % 2), n=300, chunk=64, parallel=bool(k % 2), progress=False, group="equal", border=True)
+        # inputs longer than any power-of-two block size inside the pipeline (2^16), in few large chunks
+        for src_ in (("dataframe", "hdf5") if q else SOURCES):
+            k += 1
+            yield dict(seed=seed * 7919 + 990 + k, source=src_, mode=["centres", "index"][k % 2], weights=True, redshifts=True,
+                       dtype="f8", degrees=True, n=70001, chunk=32768, parallel=bool(k % 2) and not q, progress=False, group="larger", border=False)
         for i in range(n_cases):
             c = int(rng.choice([1, 2, 3, 7, 100]))
             n = int(rng.choice(lengths_for(c))) if rng.random() < 0.7 else int(rng.integers(1, 400))
